@@ -402,6 +402,25 @@ func getCorpus(name string) *corpusT {
 				Keywords: []string{"frobnicate", "widget"}})
 		}
 		c = loadCorpus("bigtie", cmds)
+	case "bigvocab": // a personal database grown large: 4,200 entries, some 46,000 distinct words (beyond any plausible vocabulary bound)
+		word := func(n int) string {
+			b := []byte("qaaaaz")
+			for k := 4; k >= 1; k-- {
+				b[k] = byte('a' + n%26)
+				n /= 26
+			}
+			return string(b)
+		}
+		var cmds []database.Command
+		for j := 0; j < 4200; j++ {
+			ws := make([]string, 11)
+			for k := range ws {
+				ws[k] = word(j*11 + k)
+			}
+			cmds = append(cmds, database.Command{Command: "tool" + word(j*11) + " " + ws[1], Description: strings.Join(ws[2:9], " ") + " frobnicate widget",
+				Keywords: ws[9:]})
+		}
+		c = loadCorpus("bigvocab", cmds)
 	case "empty":
 		c = loadCorpus("empty", nil)
 	case "lit": // what a library user (or a test) writes: a literal command list, no loader
